@@ -124,9 +124,15 @@ fn classify(o: &mut CaseOut, who: &str, obs: &[Item], m: &Model, src: &[usize], 
     }
 }
 
-fn check_dfs<D: Order + OutNeighbors + Clone>(d: &D, m: &Model, src: &[usize], o: &mut CaseOut) {
+fn check_dfs<D: Order + OutNeighbors + Clone>(d: &D, other: &D, other_src: &[usize], m: &Model, src: &[usize], o: &mut CaseOut) {
     let n = m.n();
     let cap = 4 * n + 4;
+    {
+        // abandoned searches must not affect later ones
+        let _ = Dfs::new(d, src.iter().copied()).next();
+        let _ = DfsDist::new(d, src.iter().copied()).take(2).count();
+        let _ = DfsPred::new(d, src.iter().copied()).nth(1);
+    }
     let (full, cut) = intended(m, src);
     let a: Vec<Item> = Dfs::new(d, src.iter().copied()).take(cap).map(|v| (None, v, 0)).collect();
     classify(o, "Dfs", &a, m, src, false, false, &full, cut);
@@ -134,6 +140,25 @@ fn check_dfs<D: Order + OutNeighbors + Clone>(d: &D, m: &Model, src: &[usize], o
     classify(o, "DfsDist", &b, m, src, false, true, &full, cut);
     let c: Vec<Item> = DfsPred::new(d, src.iter().copied()).take(cap).map(|(p, v)| (p, v, 0)).collect();
     classify(o, "DfsPred", &c, m, src, true, false, &full, cut);
+    // clone_from: the destination was built over ANOTHER digraph
+    {
+        let mut x = Dfs::new(other, other_src.iter().copied());
+        x.clone_from(&Dfs::new(d, src.iter().copied()));
+        let mut y = DfsDist::new(other, other_src.iter().copied());
+        y.clone_from(&DfsDist::new(d, src.iter().copied()));
+        let mut z = DfsPred::new(other, other_src.iter().copied());
+        z.clone_from(&DfsPred::new(d, src.iter().copied()));
+        let xa: Vec<usize> = x.take(cap).collect();
+        let ya: Vec<(usize, usize)> = y.take(cap).collect();
+        let za: Vec<(Option<usize>, usize)> = z.take(cap).collect();
+        o.check(
+            xa == a.iter().map(|x| x.1).collect::<Vec<_>>()
+                && ya == b.iter().map(|x| (x.1, x.2)).collect::<Vec<_>>()
+                && za == c.iter().map(|x| (x.0, x.1)).collect::<Vec<_>>(),
+            "clone_from-of-a-fresh-Dfs-iterator-differs",
+            || format!("Dfs {xa:?} DfsDist {ya:?} DfsPred {za:?}"),
+        );
+    }
     // a clone of a fresh iterator is the same iterator
     let a2: Vec<usize> = Dfs::new(d, src.iter().copied()).clone().take(cap).collect();
     let b2: Vec<(usize, usize)> = DfsDist::new(d, src.iter().copied()).clone().take(cap).collect();
@@ -211,12 +236,15 @@ pub fn case(idx: u64, seed: u64, p: &Params, o: &mut CaseOut) {
     let huge = c04::is_huge_case(idx, p);
     let (m, src, fam) = if huge { c04::huge_path(&mut r) } else { c04::gen_case(&mut r, p.usize("max_order", 20)) };
     let ty = if huge { r.below(2) } else { r.below(5) };
+    let on = if huge { 3 } else if r.chance(0.6) { m.n() } else { r.range(1, 12) };
+    let om = crate::gen::family(&mut r, 4, on);
+    let osrc = vec![on - 1];
     match ty {
-        0 => check_dfs(&AdjacencyList::build(&m), &m, &src, o),
-        1 => check_dfs(&AdjacencyMap::build(&m), &m, &src, o),
-        2 => check_dfs(&AdjacencyMatrix::build(&m), &m, &src, o),
-        3 => check_dfs(&EdgeList::build(&m), &m, &src, o),
-        _ => check_dfs(&build_w_usize(&m), &m, &src, o),
+        0 => check_dfs(&AdjacencyList::build(&m), &AdjacencyList::build(&om), &osrc, &m, &src, o),
+        1 => check_dfs(&AdjacencyMap::build(&m), &AdjacencyMap::build(&om), &osrc, &m, &src, o),
+        2 => check_dfs(&AdjacencyMatrix::build(&m), &AdjacencyMatrix::build(&om), &osrc, &m, &src, o),
+        3 => check_dfs(&EdgeList::build(&m), &EdgeList::build(&om), &osrc, &m, &src, o),
+        _ => check_dfs(&build_w_usize(&m), &build_w_usize(&om), &osrc, &m, &src, o),
     }
     let (full, cut) = intended(&m, &src);
     let mut fp = Fp::new();
